@@ -966,3 +966,133 @@ def u_parser_init(ip: Interp, th: ControlTheory):
             flat.extend(inner.items if isinstance(inner, TupleV) else [x])
         ok = not isinstance(v, Exit) and len(sa) == 1 and set(sa[0][2]) == {"title"} and sa[0][2]["title"] is a1 and len(flat) == 1 and flat[0] is a0
         ip.require(s, "add_subparsers:delegates-once,remembers-the-commands-object-and-returns-it", z3.And(z3.BoolVal(ok), s.sh["_commands"].t == result.t, v.t == result.t) if ok and isinstance(v, RefV) else z3.BoolVal(False), P)
+
+
+# ======================================================================================================
+# helpers.resolve_dotted_path      (C17: dotted-path functions)
+# "a.b.c" is resolved by importing `a` and then looking up `b`, `c` as attributes, importing the dotted prefix
+# `a.b`, `a.b.c` whenever an attribute is not there yet (the algorithm of logging.config, as the docstring says)
+# ======================================================================================================
+PART = z3.Function("path_component", S, I, S)  # k-th component of a dotted path
+NPARTS = z3.Function("path_components", S, I)
+PREFIX = z3.Function("dotted_prefix", S, I, S)  # components 0..k joined by "."
+IMPORTED = z3.Function("imported_module", S, Ref)
+ATTR = z3.Function("attribute_of", Ref, S, Ref)
+
+
+class PartsV(V):
+    """the list `dotted_path.split(".")`, possibly with leading elements popped"""
+
+    def __init__(self, path_t, off):
+        self.path_t, self.off = path_t, off
+
+    def terms(self):
+        return [self.path_t, self.off]
+
+
+class DottedTheory(ControlTheory):
+    def call_method(self, st, fr, recv, name, pos, kws, rest_kw, node):
+        ip = self.ip
+        val = ip.deref(st, recv)
+        if isinstance(val, StrV) and name == "split" and len(pos) == 1 and isinstance(pos[0], StrV) and pos[0].lit == ".":
+            return [(st, PartsV(val.t, z3.IntVal(0)))]
+        if isinstance(val, PartsV) and name == "pop" and isinstance(recv, PlaceV) and len(pos) == 1 and isinstance(pos[0], IntV) and z3.is_int_value(z3.simplify(pos[0].t)) \
+                and z3.simplify(pos[0].t).as_long() == 0:
+            out = []
+            for s, b in ip.branch(st, NPARTS(val.path_t) - val.off > 0, "pop0"):
+                if b:
+                    ip.place_set(s, recv, PartsV(val.path_t, val.off + 1))
+                    out.append((s, StrV(PART(val.path_t, val.off))))
+                else:
+                    out.append((s, Exit(Exit.RAISE, ExcV("IndexError", []))))
+            return out
+        return super().call_method(st, fr, recv, name, pos, kws, rest_kw, node)
+
+    def iter_of(self, st, fr, v, node):
+        from pyvc.theory import Iter
+
+        d = self.ip.deref(st, v)
+        if isinstance(d, PartsV):
+            n = NPARTS(d.path_t) - d.off
+            return Iter(n, lambda i: StrV(PART(d.path_t, i + d.off)), [n >= 0], "path-components")
+        return super().iter_of(st, fr, v, node)
+
+
+def dotted_unit(name, props, functions):
+    def deco(fn):
+        def wrapped(ip, th):
+            saved = Interp.MUTABLE_EXTRA
+            Interp.MUTABLE_EXTRA = saved + (PartsV,)
+            try:
+                return fn(ip, th)
+            finally:
+                Interp.MUTABLE_EXTRA = saved
+
+        UNITS.append(Unit(name, wrapped, props, functions, theory_factory=DottedTheory, trusted=TRUSTED2 + [
+            "importlib.import_module(name) returns the module `name` or raises ImportError; getattr(obj, name) returns the attribute or raises AttributeError; str.split('.') yields at least one component"]))
+        return fn
+
+    return deco
+
+
+@dotted_unit("helpers.resolve_dotted_path", ("C17",), ["helpers.resolve_dotted_path"])
+def u_resolve_dotted_path(ip: Interp, th: DottedTheory):
+    P = ("C17",)
+    st = th.initial()
+    path = StrV(fresh("a_dotted_path", S))
+    k = z3.Int("k!pre")
+    st.assume(NPARTS(path.t) >= 1)
+    st.assume(PREFIX(path.t, 0) == PART(path.t, 0))
+    st.assume(z3.ForAll([k], z3.Implies(k >= 0, PREFIX(path.t, k + 1) == sym.str_concat([StrV(PREFIX(path.t, k)), ".", StrV(PART(path.t, k + 1))]).t)))
+    st.loc["$j"] = IntV(-1)
+
+    def on_iter(s, fr, lname, i):
+        s.loc["$j"] = IntV(i)
+
+    th.on_loop_iteration = on_iter
+
+    def import_module(s, fr, pos, kws, node):
+        nm = ip.deref(s, pos[0])
+        s.trace.append(("import", nm.t, s.loc["$j"].t))
+        jj = s.loc["$j"].t
+        # component index of the name being resolved: 0 before the loop, j+1 inside it
+        ip.require(s, "import:the-module-imported-is-the-dotted-prefix-up-to-the-component-being-resolved", nm.t == PREFIX(path.t, jj + 1), P)
+        ok = s.fork()
+        ok.tags.append("import:ok")
+        r = RefV(IMPORTED(nm.t))
+        ok.assume(r.t != NONE)
+        bad = s.fork()
+        bad.tags.append("import:fails")
+        e = ExcV("ImportError", [])
+        e.origin = "import"
+        return [(ok, r), (bad, Exit(Exit.RAISE, e))]
+
+    th.hooks["import_module"] = import_module
+
+    def getattr_(s, fr, pos, kws, node):
+        obj, nm = ip.deref(s, pos[0]), ip.deref(s, pos[1])
+        s.trace.append(("getattr", obj.t, nm.t, s.loc["$j"].t))
+        ok = s.fork()
+        ok.tags.append("attr:found")
+        r = RefV(ATTR(obj.t, nm.t))
+        bad = s.fork()
+        bad.tags.append("attr:missing")
+        e = ExcV("AttributeError", [])
+        e.origin = "getattr"
+        return [(ok, r), (bad, Exit(Exit.RAISE, e))]
+
+    th.hooks["getattr"] = getattr_
+
+    def inv(c):
+        mn = c.loc("module_name")
+        return [("the-name-to-import-next-is-built-from-the-dotted-prefix-consumed-so-far", mn.t == PREFIX(path.t, c.i) if isinstance(mn, StrV) else z3.BoolVal(False)),
+                ("components-are-consumed-in-order", z3.BoolVal(isinstance(c.loc("names"), PartsV)) if not isinstance(c.loc("names"), PartsV) else c.loc("names").off == 1)]
+
+    ip.loopspecs[("helpers.resolve_dotted_path", 1)] = LoopSpec(inv, P, name="each-component")
+    fi = ip.repo.get("helpers.resolve_dotted_path")
+    for s, v in ip.exec_function(st, fi, None, {"dotted_path": path}):
+        if isinstance(v, Exit):
+            ip.require(s, f"raises:only-ImportError/AttributeError-of-the-failing-lookup:{v.val.cls}", z3.BoolVal(v.val.cls in ("ImportError", "AttributeError") and getattr(v.val, "origin", "") in ("import", "getattr")), P)
+            continue
+        ga = [e for e in s.trace if e[0] == "getattr"]
+        ip.require(s, "post:returns-the-object-found-by-the-last-lookup", z3.BoolVal(isinstance(v, RefV)), P)
